@@ -114,6 +114,9 @@ func (p *Program) VerifyFunc(fi *FuncInfo) (res *FuncResult) {
 	for _, cl := range c.Requires {
 		check(cl, fi.Decl.Body.Lbrace+1)
 	}
+	for _, cl := range c.Assumes {
+		check(cl, fi.Decl.Body.Lbrace+1)
+	}
 	for _, cl := range c.Ensures {
 		check(cl, sc.pos)
 	}
@@ -210,6 +213,11 @@ func (p *Program) VerifyFunc(fi *FuncInfo) (res *FuncResult) {
 	for _, r := range c.Requires {
 		t := e.evalSpec(st, r)
 		e.assume(st, t)
+	}
+	for _, r := range c.Assumes {
+		t := e.evalSpec(st, r)
+		e.assume(st, t)
+		e.Assumed["entry assumption ["+r.Label+"] of "+res.Func+" (not required from callers): "+r.Src] = true
 	}
 	e.old = st.Clone()
 	e.canary(st, "requires", fi.Decl.Pos())
